@@ -758,11 +758,11 @@ pub fn owned_prefixes(prop: &str) -> &'static [&'static str] {
         "C02" => &["order/"],
         "C04" => &["ledger/mismatch", "ledger/invented", "hb/race/KanalPtr", "hb/race/owner-returnsxKanalPtr", "hb/race/publishxKanalPtr", "hb/race/re-publishxKanalPtr"],
         "C05" => &["ledger/double-drop", "ledger/leak", "ledger/option", "ledger/drop-of-garbage"],
-        "C06" => &["hang/", "progress/", "wait/"],
+        "C06" => &["hang/", "progress/", "wait/", "drain/missed"],
         "C07" => &["hb/race", "life/", "ledger/drop-of-garbage"],
         "C08" => &["cap/"],
         "C09" => &["ledger/", "order/", "hang/", "count/", "close/", "progress/", "wait/"],
-        "C10" => &["close/", "hang/"],
+        "C10" => &["close/", "hang/", "ledger/leak", "ledger/double-drop"],
         "C11" => &["disc/", "hang/", "ledger/lost", "ledger/double-drop", "ledger/leak", "ledger/failed-send-delivered"],
         "C12" => &["count/"],
         "C13" => &["panic/undocumented", "time/", "ledger/leak", "ledger/double-drop", "ledger/option", "ledger/failed-send-delivered", "life/", "hang/", "wait/"],
@@ -790,6 +790,8 @@ pub fn evaluate(prop: &str, d: &RunData) -> (Vec<Violation>, Vec<Violation>) {
         "C06" => {
             if done {
                 all.extend(o_progress(&a));
+                // a drain is a receive: the senders it leaves blocked although it could take them do not progress
+                all.extend(o_drain(&a).into_iter().filter(|x| x.sig.starts_with("drain/missed")));
             }
         }
         "C07" => {}
@@ -807,6 +809,11 @@ pub fn evaluate(prop: &str, d: &RunData) -> (Vec<Violation>, Vec<Violation>) {
         "C10" => {
             if done {
                 all.extend(o_close(&a));
+            }
+            // the values of operations that a close released (or refused afterwards) are handed back or destroyed
+            // once; only judged in runs in which a close succeeded
+            if d.recs.iter().any(|r| r.res == Res::CloseOk) {
+                all.extend(o_drops(&a).into_iter().filter(|x| x.sig.starts_with("ledger/leak") || x.sig.starts_with("ledger/double-drop")));
             }
         }
         "C11" => {
